@@ -14,6 +14,7 @@ package corazawaf
 //@   modifies br.length, br.writer, br.buffer.content, os.File.content, liveTmp
 //@   ensures isnil(err) ==> BufInv(br) && n == len(data) && bufContent(br) == old(bufContent(br)) + str(data)
 //@   ensures old(br.length) + len(data) > br.options.Limit ==> !isnil(err) && n == 0 && BufInv(br) && bufContent(br) == old(bufContent(br))
+//@   ensures accepted: old(br.length) + len(data) <= br.options.Limit && old(br.length) + len(data) <= br.options.MemoryLimit ==> isnil(err)
 //@   ensures recorded: forall s string :: in(s, liveTmp) ==> in(s, old(liveTmp)) || (br.writer != nil && s == br.writer.name)
 //@   ensures old(br.writer) != nil ==> br.writer == old(br.writer)
 
